@@ -18,7 +18,13 @@ Second output, lean/Nstd/Generated/ArgsProc.lean: the Process object -- `Process
 `join(uint32&)`, `join()`, `close(uint)` (POSIX branches) over the members `fdStdOutRead`, `fdStdErrRead`, `fdStdInWrite`, `pid`,
 `enum Stream`; system calls go to the kernel ghost of lean/Nstd/Args/CSemProc.lean (`::close(fd)`, `::kill((pid_t)pid, SIGKILL)` append to
 the call trace; `waitpid(pid, &status, 0) != (pid_t)pid` is ONE condition answered by an oracle; `WEXITSTATUS`, `errno = EINVAL`).
-lean/Nstd/Args/PropsProc.lean proves them equal to `Proc.step` and to the action list `Kernel.joinProgram`.
+lean/Nstd/Args/PropsProc.lean proves them equal to `Proc.step` and to the action list `Kernel.joinProgram`; also `Process::exit`, the
+2-argument `read`, `write`, `setEnvironmentVariable`.
+
+Third output, lean/Nstd/Generated/ArgsSel.lean: `Process::read(void* buffer, usize length, uint& streams)` (POSIX branch): `fd_set` = list of
+descriptor numbers (`FD_ZERO` / `FD_SET` / `FD_ISSET`), `timeval tv = {s, 0}`, `for(;;)` over fuel, `select(maxFd + 1, &fdr, 0, 0, &tv)` and
+`::read(fd, buffer, length)` answered by the assumed kernel of lean/Nstd/Args/CSemSel.lean (= the kernel of ReadSel.lean with its `select`
+oracle); a call that never returns ends the function with a result code < -1.  lean/Nstd/Args/PropsSel.lean proves it equal to `ReadSel.read3`.
 
 Anything outside the understood subset is REFUSED (exception -> the check reports a broken tie).
 
@@ -43,6 +49,7 @@ from pathlib import Path
 VERIF = Path(__file__).resolve().parents[1]
 OUT = VERIF / "lean" / "Nstd" / "Generated" / "ArgsCode.lean"
 OUT_PROC = VERIF / "lean" / "Nstd" / "Generated" / "ArgsProc.lean"
+OUT_SEL = VERIF / "lean" / "Nstd" / "Generated" / "ArgsSel.lean"
 
 
 class Refuse(Exception):
@@ -211,9 +218,10 @@ TYPES = {
     ("String",): "string",
     ("uint32",): "usize",
     ("uint",): "usize",
+    ("fd_set",): "fdset",
 }
 BINPREC = [["||"], ["&&"], ["|"], ["^"], ["&"], ["==", "!="], ["<", ">", "<=", ">="], ["<<", ">>"], ["+", "-"], ["*", "/", "%"]]
-ALLOWED_BIN = {"||", "&&", "&", "==", "!=", "<", "+", "-"}
+ALLOWED_BIN = {"||", "&&", "&", "==", "!=", "<", ">", "+", "-"}
 
 
 class Parser:
@@ -276,9 +284,7 @@ class Parser:
             if not self.at(";"):
                 init = self.simple()
             self.eat(";")
-            if self.at(";"):
-                raise Refuse(f"{self.fn}: for loop without condition")
-            cond = self.expr()
+            cond = ("bool", True) if self.at(";") else self.expr()
             self.eat(";")
             step = None if self.at(")") else self.expr()
             self.eat(")")
@@ -331,6 +337,11 @@ class Parser:
         return s
 
     def simple(self):
+        if (self.at("timeval") and self.peek(1)[0] == "id" and self.at("=", 2) and self.at("{", 3) and self.peek(4)[0] == "num"
+                and self.at(",", 5) and self.peek(6) == ("num", 0) and self.at("}", 7)):
+            name, sec = self.peek(1)[1], self.peek(4)[1]
+            self.i += 8
+            return ("decl", "usize", name, ("num", sec))        # `timeval tv = {sec, 0}`: the seconds
         d = self.decl_type()
         if d:
             ty, k = d
@@ -394,6 +405,9 @@ class Parser:
         if self.at("&") and self.peek(1)[0] == "id":
             self.eat()
             return ("addr", self.eat()[1])
+        if self.at("-") and self.peek(1)[0] == "num":
+            self.eat()
+            return ("num", -self.eat()[1])
         for op in ("--", "-", "~", "&", "+", "sizeof"):
             if self.at(op):
                 raise Refuse(f"{self.fn}: unary `{op}`")
@@ -534,9 +548,9 @@ LEAN_KEYWORDS = {"end", "at", "from", "fun", "in", "do", "then", "else", "if", "
                  "where", "by", "def", "instance", "structure", "class", "variable", "local", "private", "mutual", "section",
                  "namespace", "import", "theorem", "example", "calc", "for", "return", "unless", "try", "catch", "finally", "mut",
                  "nomatch", "using", "prefix", "infix", "notation", "macro", "syntax", "deriving", "extends", "universe", "set_option"}
-LEAN_TYPE = {"penv": "PEnv", "kern": "K", "cptr": "Ptr", "argvp": "Nat", "optp": "Nat", "usize": "Nat", "int": "Int", "bool": "Bool", "string": "List Nat",
+LEAN_TYPE = {"fd": "Nat", "fdset": "List Nat", "rsel": "ReadSel.RS", "evs": "List ReadSel.Ev", "penv": "PEnv", "kern": "K", "cptr": "Ptr", "argvp": "Nat", "optp": "Nat", "usize": "Nat", "int": "Int", "bool": "Bool", "string": "List Nat",
              "strlist": "List (List Nat)"}
-LEAN_DEFAULT = {"penv": "[]", "kern": "⟨[], []⟩", "cptr": "Ptr.null", "argvp": "0", "optp": "0", "usize": "0", "int": "0", "bool": "false", "string": "[]", "strlist": "[]"}
+LEAN_DEFAULT = {"fd": "0", "fdset": "[]", "rsel": "⟨0, 0, [], [], false, false⟩", "evs": "[]", "penv": "[]", "kern": "⟨[], []⟩", "cptr": "Ptr.null", "argvp": "0", "optp": "0", "usize": "0", "int": "0", "bool": "false", "string": "[]", "strlist": "[]"}
 
 
 def fld(name):
@@ -567,6 +581,7 @@ class Fn:
         self.fuel = fuel
         self.members = set(members)
         self.proc = False                                      # the Process-object functions: syscalls, casts, errno
+        self.sel = False                                       # read(buffer, length, streams): fd_set, select, ::read on a pipe
         self.callees = {}                                      # member functions that may be called: C++ name -> (Lean name, parameter names)
         self.blocks = []                                       # Lean definitions in dependency order
         self.nblk = self.ntmp = self.nloop = 0
@@ -704,7 +719,7 @@ class Fn:
             raise Refuse(f"{self.name}: `{op}` in a value context")
         if kind == "bin":
             op, a, b = e[1], e[2], e[3]
-            if op in ("&&", "||", "==", "!=", "<"):
+            if op in ("&&", "||", "==", "!=", "<", ">"):
                 raise Refuse(f"{self.name}: `{op}` in a value context")
             def ka(ta, xa):
                 def kb(tb, xb):
@@ -716,6 +731,8 @@ class Fn:
                             return k("usize", f"({xa} + {xb})")
                         if ta in ("argvp", "optp") and tb in nat:
                             return k(ta, f"({xa} + {xb})")
+                        if ta == "int" and tb == "intlit" and self.proc:
+                            return k("int", f"({xa} + {xb})")
                     if op == "-":
                         if ta == "cptr" and tb in nat:
                             return self.bind(f"Ptr.sub {xa} {xb}", k, "cptr")
@@ -756,6 +773,38 @@ class Fn:
                     self.touch(m)
                 t = self.tmp()
                 return (f"match {lean} E s with\n| some (.ret {t} s) =>\n{ind(k('bool', t))}\n| _ => none")
+            if self.sel and name == "FD_ISSET" and len(args) == 2 and args[1][0] == "addr" and self.vars.get(args[1][1]) == "fdset":
+                st = args[1][1]
+                def k1(t1, x1):
+                    if t1 != "fd":
+                        raise Refuse(f"{self.name}: FD_ISSET({t1}, ..)")
+                    self.reads.add(st)
+                    return k("bool", f"(s.{fld(st)}.contains {x1})")
+                return self.cexpr(args[0], k1)
+            if (self.sel and name == "select" and len(args) == 5 and args[1][0] == "addr" and self.vars.get(args[1][1]) == "fdset"
+                    and args[2] == ("num", 0) and args[3] == ("num", 0) and args[4][0] == "addr" and self.vars.get(args[4][1]) == "usize"):
+                st = args[1][1]
+                def k1(t1, x1):
+                    if t1 != "int":
+                        raise Refuse(f"{self.name}: select({t1}, ..)")
+                    for m in ("kr", "evs", "errno", st):
+                        self.touch(m)
+                    ti, ts, te, tv = self.tmp(), self.tmp(), self.tmp(), self.tmp()
+                    return (f"match sysSelect s.kr s.evs {x1} s.{fld(st)} with\n| .blocked => some (.ret blockedCode s)\n"
+                            f"| .ret {ti} {ts} {te} {tv} =>\n  let s := {{ s with {fld(st)} := {ts}, evs := {tv}, errno := {te}.getD s.errno }}\n"
+                            + ind(k("int", ti)))
+                return self.cexpr(args[0], k1)
+            if self.sel and name == "::read" and len(args) == 3 and args[1] == ("var", "buffer"):
+                def k1(t1, x1):
+                    def k3(t3, x3):
+                        if t1 != "fd" or t3 != "usize":
+                            raise Refuse(f"{self.name}: ::read({t1}, buffer, {t3})")
+                        tb, tk = self.tmp(), self.tmp()
+                        return (f"match sysReadPipe s.kr {x1} {x3} with\n| .bad => none\n| .hang => some (.ret hangCode s)\n"
+                                f"| .got {tb} {tk} =>\n  let s := {{ s with kr := {tk}, buffer := {tb} }}\n"
+                                + ind(k("int", f"({tb}.length : Int)")))
+                    return self.cexpr(args[2], k3)
+                return self.cexpr(args[0], k1)
             if self.proc and name in ("::read", "::write") and len(args) == 3 and args[1] == ("var", "buffer"):
                 def k1(t1, x1):
                     def k3(t3, x3):
@@ -807,13 +856,13 @@ class Fn:
         if target == "int":
             if ty == "char":
                 return f"sext {term}"
-            if ty in ("charlit", "intlit"):
+            if ty in ("charlit", "intlit", "fd"):
                 return f"({term} : Int)"
             if ty == "int":
                 return term
         elif target == "usize" and ty in ("usize", "intlit"):
             return term
-        elif target == ty and target in ("cptr", "optp", "argvp", "bool", "string"):
+        elif target == ty and target in ("cptr", "optp", "argvp", "bool", "string", "fd"):
             return term
         raise Refuse(f"{self.name}: a {ty} is stored into a {target}")
 
@@ -862,6 +911,8 @@ class Fn:
             t = self.tmp()
             return (f"match K.waitpid s.k s.pid with\n| (none, k') =>\n  let s := {{ s with k := k' }}\n{ind(kt.text)}\n"
                     f"| (some {t}, k') =>\n  let s := {{ s with k := k', {fld(st)} := ({t} : Int) }}\n{ind(kf.text)}")
+        if kind == "bin" and e[1] == ">":
+            return self.ccond(("bin", "<", e[3], e[2]), kt, kf)
         if kind == "bin" and e[1] in ("==", "!=", "<"):
             op, a, b = e[1], e[2], e[3]
             if op != "<" and a[0] == "call" and a[1] == "String::compare" and len(a[2]) == 3 and b == ("num", 0):
@@ -880,10 +931,10 @@ class Fn:
                 return self.cexpr(x, k1)
             def ka(ta, xa):
                 def kb(tb, xb):
-                    chars, ints, nats = ("char", "charlit"), ("int", "charlit", "intlit"), ("usize", "intlit")
+                    chars, ints, nats = ("char", "charlit"), ("int", "charlit", "intlit", "fd"), ("usize", "intlit")
                     ok = ((ta in chars and tb in chars) or (ta in nats and tb in nats) or (ta == tb and ta in ("optp", "argvp"))
                           or (ta in ints and tb in ints and "int" in (ta, tb)))
-                    if not ok or (op == "<" and (ta in chars or ta == "int")):
+                    if not ok or (op == "<" and (ta in chars or (ta == "int" and not self.sel))):
                         raise Refuse(f"{self.name}: comparison `{ta} {op} {tb}`")
                     if "int" in (ta, tb):
                         xa2, xb2 = self.convert("int", ta, xa), self.convert("int", tb, xb)
@@ -899,7 +950,7 @@ class Fn:
         def kv(ty, term):
             if ty == "bool":
                 return ite(f"{term} = true")
-            if ty in ("char", "usize") or (ty == "int" and self.proc):
+            if ty in ("char", "usize", "fd") or (ty == "int" and self.proc):
                 return f"if {term} = 0 then\n{ind(kf.text)}\nelse\n{ind(kt.text)}"
             if ty == "cptr":
                 return f"if {term} = Ptr.null then\n{ind(kf.text)}\nelse\n{ind(kt.text)}"
@@ -935,9 +986,9 @@ class Fn:
                 raise Refuse(f"{self.name}: return without a value")
             if self.ret == "int":
                 def kr(ty, term):
-                    if ty != "int":
+                    if ty not in ("int", "intlit"):
                         raise Refuse(f"{self.name}: return of a {ty}")
-                    return self.ret_(term)
+                    return self.ret_(self.convert("int", ty, term))
                 return self.cexpr(s[1], kr)
             return self.ccond(s[1], K(self.ret_("true")), K(self.ret_("false")))
         if kind == "break":
@@ -951,7 +1002,7 @@ class Fn:
         if kind == "decl":
             _, ty, name, init = s
             if init is None:
-                if ty in ("int", "usize") and self.proc:
+                if ty in ("int", "usize", "fdset") and self.proc:
                     return k.text                      # `int status;`: no value yet, the field keeps what it holds
                 if ty != "string":
                     raise Refuse(f"{self.name}: `{name}` is declared without initialiser")
@@ -1030,6 +1081,15 @@ class Fn:
                     if t1 != "usize":
                         raise Refuse(f"{self.name}: ::kill({t1}, SIGKILL)")
                     return self.update("k", f"K.kill s.k {x1} SIGKILL", lambda: k.text)
+                return self.cexpr(args[0], k1)
+            if self.sel and name == "FD_ZERO" and len(args) == 1 and args[0][0] == "addr" and self.vars.get(args[0][1]) == "fdset":
+                return self.update(args[0][1], "[]", lambda: k.text)
+            if self.sel and name == "FD_SET" and len(args) == 2 and args[1][0] == "addr" and self.vars.get(args[1][1]) == "fdset":
+                st = args[1][1]
+                def k1(t1, x1):
+                    if t1 != "fd":
+                        raise Refuse(f"{self.name}: FD_SET({t1}, ..)")
+                    return self.update(st, f"s.{fld(st)} ++ [{x1}]", lambda: k.text)
                 return self.cexpr(args[0], k1)
             if name == "_exit" and len(args) == 1:
                 def k1(t1, x1):
@@ -1357,6 +1417,40 @@ def generate_proc(repo):
     return "\n".join(out)
 
 
+def generate_sel(repo):
+    """ssize Process::read(void* buffer, usize length, uint& streams) (POSIX branch)"""
+    cpp = posix_branch(scan((Path(repo) / "src/Process.cpp").read_text()))
+    hpp = posix_branch(scan((Path(repo) / "include/nstd/Process.hpp").read_text()))
+    streams = option_flags(hpp, "Stream")
+    texts = [t[1] if t[0] in ("id", "op") else None for t in hpp]
+    for ty, name in (("int", "fdStdOutRead"), ("int", "fdStdErrRead"), ("int", "fdStdInWrite"), ("uint32", "pid")):
+        if sum(1 for i in range(len(texts) - 2) if texts[i:i + 3] == [ty, name, ";"]) != 1:
+            raise Refuse(f"class Process: data member `{ty} {name};` not found")
+    body = parse_body(find_body(cpp, ["ssize", "Process", "::", "read", "(", "void", "*", "buffer", ",", "usize", "length", ",",
+                                      "uint", "&", "streams", ")"], "Process::read(buffer, length, streams)"), "read3")
+    body = rename_locals(body, ["fdr", "maxFd", "tv", "i"], "read3")
+    # a descriptor member is a descriptor number (0 = none): Nat
+    vars_ = {"fdStdOutRead": "fd", "fdStdErrRead": "fd", "fdStdInWrite": "fd", "pid": "usize", "length": "usize", "streams": "usize"}
+    consts = {"EINVAL": ("usize", "EINVAL"), "EINTR": ("usize", "EINTR")}
+    f = Fn("read3", "RD", "int", vars_, consts, streams, True, list(vars_)[:4])
+    f.proc = f.sel = True
+    f.declare(body)
+    f.vars.update({"errno": "usize", "buffer": "string", "kr": "rsel", "evs": "evs"})
+    allvars = dict(f.vars)
+    blocks = f.function(body, "`ssize Process::read(void* buffer, usize length, uint& streams)` (POSIX branch)")
+    if f.vars != allvars:
+        raise Refuse("read3: undeclared variable")
+    rec = ("structure RD where\n" + "".join(f"  {fld(v)} : {LEAN_TYPE[t]}\n" for v, t in allvars.items()))
+    out = ["/- generated by tools/gen_args.py from src/Process.cpp and include/nstd/Process.hpp — do not edit -/",
+           "import Nstd.Args.CSemSel", "", "set_option linter.unusedVariables false", "", "namespace Nstd.Args.GenS",
+           "open Nstd.Args Nstd.Args.C", "", "/-- `enum Stream` -/"]
+    out += [f"def {k} : Nat := {v}" for k, v in streams.items()]
+    out += ["", "/-- data members of `class Process` (POSIX; a descriptor is its number, 0 = none), parameters and locals of the 3-argument `read`,\n"
+            "    `errno`, what `::read` stored into `buffer`, the assumed kernel (`kr`) and the `select` oracle (`evs`) -/",
+            rec, "\n\n".join(blocks), "", "end Nstd.Args.GenS", ""]
+    return "\n".join(out)
+
+
 def run(repo=None):
     """returns (ok, message); writes the generated file only when its content changed"""
     if repo is None:
@@ -1365,19 +1459,20 @@ def run(repo=None):
     try:
         text = generate(repo)
         ptext = generate_proc(repo)
+        stext = generate_sel(repo)
     except (Refuse, OSError, IndexError) as ex:
         return False, f"tools/gen_args.py refuses the current Process.cpp / Process.hpp (broken tie): {ex}"
     OUT.parent.mkdir(parents=True, exist_ok=True)
-    for out, t in ((OUT, text), (OUT_PROC, ptext)):
+    for out, t in ((OUT, text), (OUT_PROC, ptext), (OUT_SEL, stext)):
         if not out.exists() or out.read_text() != t:
             out.write_text(t)
-    return True, hashlib.sha1((text + ptext).encode()).hexdigest()[:12]
+    return True, hashlib.sha1((text + ptext + stext).encode()).hexdigest()[:12]
 
 
 def gen(ctx):
     ok, msg = run()
     if ok:
-        ctx.notes.append(f"translator: Nstd/Generated/ArgsCode.lean and ArgsProc.lean regenerated from the current Process.cpp / Process.hpp (sha1 {msg})")
+        ctx.notes.append(f"translator: Nstd/Generated/ArgsCode.lean, ArgsProc.lean and ArgsSel.lean regenerated from the current Process.cpp / Process.hpp (sha1 {msg})")
     return ok, msg
 
 
